@@ -262,3 +262,20 @@ def pure_emptiness_test(test):
         if is_read(l) and isinstance(r, ast.Constant) and r.value in ('', b'') and isinstance(test.ops[0], ast.NotEq):
             return True
     return False
+
+
+def final_fallback(repo, cg, fn, target):
+    """True iff the only way to leave `fn` other than through an earlier explicit `return` is `return <target>(...)`:
+    the last top-level statement is that return, or the last top-level `if` chain ends in an else that is."""
+    def is_ret(st):
+        return isinstance(st, ast.Return) and isinstance(st.value, ast.Call) and ('func', target) in cg.resolve(st.value.func, fn)
+    body = [s for s in fn.body if not (isinstance(s, ast.Expr) and isinstance(s.value, ast.Constant))]
+    if not body:
+        return False
+    last = body[-1]
+    if is_ret(last):
+        return True
+    if isinstance(last, ast.If):
+        arms, orelse = if_chain(last)
+        return bool(orelse) and is_ret(orelse[-1]) and all(b and isinstance(b[-1], (ast.Return, ast.Raise)) for t, b, n in arms)
+    return False
